@@ -782,3 +782,33 @@ def same_names_program():
                             ("motors", 3, mste, ms)])
     return {"files": {"main": [{"d": "proto", "name": "main"}, lampd, motord, topd]}, "order": ["main"],
             "main": "main", "top": "Top", "rtype": top, "nbits": None}
+
+
+LONG_WORDS = ["battery", "voltage", "millivolts", "accelerometer", "calibration", "offset", "temperature", "celsius",
+              "hardware", "revision", "identifier", "controller", "measurement", "timestamp", "microseconds"]
+
+
+def long_field_names(prog, rng, p=0.3):
+    """Renames a share of the message fields to long snake_case names (29..90 characters); declarations and the
+    intended type tree are kept in step.  Returns the number of fields renamed."""
+    n = 0
+    for m in message_nodes(prog["rtype"]):
+        d = m.get("_decl")
+        if d is None:
+            continue
+        fds = [x for x in d["body"] if x["d"] == "field"]
+        if len(fds) != len(m["fields"]):
+            continue
+        used = {x["name"] for x in d["body"] if "name" in x}
+        for fd, f in zip(fds, m["fields"]):
+            if rng.random() < p:
+                want = rng.choice([29, 30, 31, 32, 33, 40, 64, 90])
+                name = "_".join(rng.choice(LONG_WORDS) for _ in range(12))[:want].rstrip("_")
+                while len(name) < want:
+                    name += "x"
+                if name in used:
+                    continue
+                used.add(name)
+                fd["name"] = f["name"] = name
+                n += 1
+    return n
